@@ -282,6 +282,15 @@ func generate(seed uint64, focus, arm string) *plan.Plan {
 		}
 	case "C05", "C06", "C14", "C16":
 		return genXport(r, seed, focus, arm)
+	case "C04":
+		if arm == "exhaust" {
+			// the end of a pipelined connection's id space: a wrapped id makes
+			// two queries share a slot, and the (replayed) reply to the first
+			// becomes the answer to the second
+			p := genXport(r, seed, "C05", arm)
+			p.Focus = "C04"
+			return p
+		}
 	case "C18":
 		if arm == "latedial" {
 			return genLateDial(r, seed)
